@@ -1198,6 +1198,48 @@ def _owned_next(eng, st, args, ci):
     return some(seq.items[p])
 
 
+# ---------------------------------------------------------------- (a..).zip(iter): numbering the items of another iterator
+
+@intrinsic(r'^<(std::ops::)?RangeFrom<(u\d+|usize|i\d+|isize)> as (std::iter::)?Iterator>::zip::<', 'RangeFrom::zip(iter) (counter + the other iterator, advanced by its own summary)', prio=2)
+def _rangefrom_zip(eng, st, args, ci):
+    rf = args[0]
+    if not (isinstance(rf, Tup) and len(rf.items) >= 1 and isinstance(rf.items[0], BV)):
+        raise Unsupported('RangeFrom value %r' % (rf,))
+    cell = eng.ref_to(st, args[1], True, 'zipped')
+    return Tup([rf.items[0], cell], 'ZipFrom')
+
+
+@intrinsic(r'^<(std::iter::)?Zip<(std::ops::)?RangeFrom<(u\d+|usize|i\d+|isize)>, .*> as (std::iter::)?IntoIterator>::into_iter$', 'Zip::into_iter (identity)', prio=2)
+def _zipfrom_into_iter(eng, st, args, ci):
+    return args[0]
+
+
+@intrinsic(r'^<(std::iter::)?Zip<(std::ops::)?RangeFrom<(u\d+|usize|i\d+|isize)>, .*> as (std::iter::)?Iterator>::next$', 'Zip<RangeFrom, I>::next', prio=2)
+def _zipfrom_next(eng, st, args, ci):
+    zref = args[0]
+    z = eng.read_ref(st, zref)
+    if not (isinstance(z, Tup) and z.name == 'ZipFrom'):
+        raise Unsupported('Zip::next on %r' % (z,))
+    cnt, cell = z.items
+    m = re.match(r'^<(?:std::iter::)?Zip<(?:std::ops::)?RangeFrom<[a-z0-9]+>, (.*)> as (?:std::iter::)?Iterator>::next$', ci.func)
+    inner_callee = '<%s as Iterator>::next' % m.group(1)
+    res = []
+    for (s2, kind, v) in eng.call_path(st, inner_callee, [cell], ci):
+        if kind != 'ret':
+            res.append((s2, kind, v))
+            continue
+        if not isinstance(v, Enum):
+            raise Unsupported('inner next returned %r' % (v,))
+        if v.concrete() == 0:
+            res.append((s2, 'ret', NONE))
+            continue
+        if v.concrete() is None:
+            raise Unsupported('inner next with a symbolic discriminant')
+        eng.write_ref(s2, zref, Tup([BV(cnt.e + 1, cnt.ty), cell], 'ZipFrom'))
+        res.append((s2, 'ret', some(Tup([cnt, v.payloads[1].items[0]]))))
+    return res
+
+
 # ---------------------------------------------------------------- f32
 
 @intrinsic(r'^(std|core)::f32::<impl f32>::round$', 'f32::round = round to nearest, ties away from zero (IEEE roundToIntegral RNA)')
@@ -1226,6 +1268,11 @@ def _filter_map_next(eng, st, args, ci):
     n = len(seq.items)
     results = []
     live = [st]
+
+    def advance(s_, to):
+        # the cursor moves past the element that was yielded (or to the end)
+        if isinstance(fm, Ref):
+            eng.write_ref(s_, fm, Tup([Tup([ref, bv_const(to, 'usize')], it.name), f], fmv.name))
     for j in range(p, n):
         nxt = []
         for s in live:
@@ -1242,13 +1289,16 @@ def _filter_map_next(eng, st, args, ci):
                     s3.assume(z3.Not(some_c))
                     nxt.append(s3)
                     s2.assume(some_c)
+                    advance(s2, j + 1)
                     results.append((s2, 'ret', Enum('Option', 1, {1: val.payloads[1]})))
                 elif can_some:
+                    advance(s2, j + 1)
                     results.append((s2, 'ret', Enum('Option', 1, {1: val.payloads[1]})))
                 elif can_none:
                     nxt.append(s2)
         live = nxt
     for s in live:
+        advance(s, n)
         results.append((s, 'ret', NONE))
     return results
 
